@@ -192,6 +192,11 @@ func newPoolRouter(hook, caching bool) *poolRouter {
 				qv := c.QueryValues() // the handler's own copy to edit (eg to build the link to the next page)
 				qv.Set("limit", "10")
 				qv.Del("token")
+			case "datawrite":
+				// the handler writes through the map Data() hands out (its request's data), without calling Set first
+				if d := c.Data(); d != nil {
+					d["k2"] = "v2"
+				}
 			case "copy":
 				// a middleware wraps the writer for its request; the handler hands a copy of the context to a background job
 				c.Resp = &tagWriter{ResponseWriter: c.Resp, tag: "[job]"}
@@ -221,6 +226,26 @@ func newPoolRouter(hook, caching bool) *poolRouter {
 	r.GET("/o[.html]", func(c *rux.Context) { c.WriteString("o") }) // matched by regex, no variables
 	r.POST("/p", func(c *rux.Context) {})
 	r.GET("/boom", boom)
+	// a handler that re-dispatches its request (Router.HandleContext) to a static route / to the panicking route, behind a
+	// route-level recover middleware
+	recoverMw := func(c *rux.Context) {
+		defer func() {
+			if rec := recover(); rec != nil {
+				c.AbortWithStatus(500) // (the chain of the context is the re-dispatched one by now: stop it)
+			}
+		}()
+		c.Next()
+	}
+	r.GET("/rd", func(c *rux.Context) {
+		c.Req.URL.Path = "/s"
+		c.Router().HandleContext(c)
+		c.Abort()
+	}, recoverMw)
+	r.GET("/rp", func(c *rux.Context) {
+		c.Req.URL.Path = "/boom"
+		c.Router().HandleContext(c)
+		c.Abort()
+	}, recoverMw)
 	if hook {
 		r.OnPanic = func(c *rux.Context) { c.SetStatus(500) }
 	}
@@ -241,7 +266,7 @@ func (poolRenderer) Render(w io.Writer, name string, _ any, _ *rux.Context) erro
 
 func (pr *poolRouter) serve(q *poolReq) (obs *poolObs, code int, body string) {
 	path := map[string]string{"static": "/s", "dynamic": "/d/7", "optional": "/o", "render": "/r", "notfound": "/missing", "notallowed": "/p", "panic": "/boom",
-		"panichook": "/boom", "foreign": "/s"}[q.Kind]
+		"panichook": "/boom", "foreign": "/s", "redispatch": "/rd", "redispanic": "/rp"}[q.Kind]
 	w := httptest.NewRecorder()
 	var rw http.ResponseWriter = w
 	for _, m := range q.Muts {
@@ -271,6 +296,39 @@ func (pr *poolRouter) serve(q *poolReq) (obs *poolObs, code int, body string) {
 	return pr.obs, w.Code, w.Body.String()
 }
 
+var poolRepeated bool
+
+// poolRepeat: one kind of request REPEATED (counters, thresholds and whatever else accumulates in a recycled context show
+// only after several requests of one kind), then one request of every kind, compared with the fresh twin
+func poolRepeat(s *Summary) {
+	kinds := []string{"static", "dynamic", "optional", "render", "notfound", "notallowed", "panic", "panichook", "redispatch", "redispanic"}
+	for _, hook := range []bool{false, true} {
+		for _, x := range kinds {
+			for _, y := range kinds {
+				if (x == "panichook" || y == "panichook") != hook { // (the hook is installed exactly where a history needs it)
+					continue
+				}
+				for _, reps := range []int{2, 7} {
+					pv := newPoolRouter(hook, false)
+					for i := 0; i < reps; i++ {
+						pv.serve(&poolReq{Kind: x})
+					}
+					last := poolReq{Kind: y}
+					o2, c2, b2 := pv.serve(&last)
+					o3, c3, b3 := newPoolRouter(hook, false).serve(&last)
+					s.Compared++
+					if (o2 == nil) != (o3 == nil) || (o2 != nil && !reflect.DeepEqual(*o2, *o3)) || c2 != c3 || b2 != b3 {
+						s.mismatch(map[string]any{"kind": "pool", "aspect": "pristine", "what": fmt.Sprintf(
+							"history: %d requests of kind %s, then one of kind %s (OnPanic hook installed: %v): the last request observed %+v -> %d %q; on a fresh identical router %+v -> %d %q",
+							reps, x, y, hook, o2, c2, b2, o3, c3, b3)}, nil)
+						return
+					}
+				}
+			}
+		}
+	}
+}
+
 func poolReplay(s *Summary, raw json.RawMessage) {
 	var c poolCase
 	if err := json.Unmarshal(raw, &c); err != nil {
@@ -281,6 +339,10 @@ func poolReplay(s *Summary, raw json.RawMessage) {
 	defer runtime.UnlockOSThread()
 	old := debug.SetGCPercent(-1)
 	defer debug.SetGCPercent(old)
+	if !poolRepeated {
+		poolRepeated = true
+		poolRepeat(s)
+	}
 	hook := false
 	for _, q := range c.H {
 		hook = hook || q.Kind == "panichook"
@@ -303,7 +365,7 @@ func poolReplay(s *Summary, raw json.RawMessage) {
 	// histories (one per model state and step) need not contain them in front of every kind of request. For the short
 	// histories each of them is therefore added to the first request and the last request is compared with the fresh twin.
 	if len(c.H) == 2 {
-		for _, latent := range []string{"renderfail", "sethandlers", "query", "delegate", "params", "allowed", "copy"} {
+		for _, latent := range []string{"renderfail", "sethandlers", "query", "delegate", "params", "allowed", "copy", "datawrite"} {
 			first := c.H[0]
 			first.Muts = append(append([]string{}, first.Muts...), latent)
 			pv := newPoolRouter(hook, caching)
